@@ -40,7 +40,7 @@ WORLD_KINDS = ["sim-numba", "sim-cuda", "numpy", "real-numba"]
 def budget(tier):
     if tier == "thorough":
         return {"n": 100000, "wall_s": 1200, "workers": 16, "selftest": 24}
-    return {"n": 640, "wall_s": 60, "workers": 16, "selftest": 3}
+    return {"n": 640, "wall_s": 50, "workers": 16, "selftest": 3}
 
 
 def prime():
@@ -56,8 +56,8 @@ def generate(seed, tier):
         N = rw.choice([256, 400, 700, 1000])
         Lmin = rw.choice([32, 64, 128])
     else:
-        N = rw.choice([64, 96, 128, 160])
-        Lmin = rw.choice([16, 32, 32, 48])
+        N = rw.choice([64, 96, 96, 128])
+        Lmin = rw.choice([16, 16, 32, 32])
     d = rw.randrange(1, max(2, Lmin // 16 + 1)) if law == "delay" else 0
     g = rw.choice([1.0, -1.0, 2.0, 0.5, -3.0, 1e-3, 1e3, round(rw.uniform(-10, 10), 3) or 1.0])
     cfg = SC.gen_config(rw, N, allow_custom=False, allow_band=True, allow_force=False, min_Lmin=Lmin)
@@ -77,15 +77,19 @@ def generate(seed, tier):
     if rw.random() < 0.15:
         data["nonfinite"] = [[rf.randrange(0, N + d), rf.choice(["nan", "pinf", "ninf"])] for _ in range(rf.randrange(1, 4))]
     singles = [[rw.randrange(0, 64)] for _ in range(rw.randrange(0, 3))]
+    if law == "gain" and rw.random() < 0.3:
+        singles.append(["edge", rw.choice([0.0, 0.5]), rw.choice([16, 32, 33, 64])])      # DC / Nyquist bin, explicit L
+    # attributes a user may read before the transfer function (exports, conditioned spectra, error bars ...)
+    pre_access = rw.sample(RM.CROSS_ONLY + ["Gxx", "Gyy", "Gxy", "ENBW", "to_dataframe"], rw.randrange(0, 5)) if rw.random() < 0.5 else []
     # further stages: the caller refills the SAME preallocated buffer in place and analyses again
     refills = []
-    for _ in range(rw.choice([0, 0, 1, 1, 2]) if not big else rw.choice([0, 1])):
+    for _ in range(rw.choice([0, 0, 0, 1]) if not big else rw.choice([0, 1, 2])):
         law2 = rw.choice(["gain", "delay"])
         d2 = rw.randrange(1, max(2, Lmin // 16 + 1)) if law2 == "delay" else 0
         g2 = rw.choice([1.0, -1.0, 2.0, 0.5, -3.0, 7.0])
         data2 = dict(data, recipe=rw.choice(["noise", "multisine", "randwalk"]), rng=rw.randrange(2 ** 31), N=N + d2)
         refills.append({"law": law2, "g": g2, "d": d2, "data": data2})
-    return {"law": law, "g": g, "d": d, "N": N, "data": data, "cfg": cfg, "singles": singles, "refills": refills,
+    return {"law": law, "g": g, "d": d, "N": N, "data": data, "cfg": cfg, "singles": singles, "refills": refills, "pre_access": pre_access,
             "worlds": [W.gen_world(rf, k, 8) for k in kinds], "clock": CK.gen_clock(R.stream(seed, "clock"), p_none=0.5)}
 
 
@@ -138,6 +142,7 @@ def _execute_stage(sc, out, buf, stage):
     d, g, law = sc["d"], sc["g"], sc["law"]
     clock = CK.SimClock(sc.get("clock"))
     per_world = {}
+    edge_world = {}
     plan_ref = None
     for ws in sc["worlds"]:
         world = ws["world"]
@@ -154,10 +159,20 @@ def _execute_stage(sc, out, buf, stage):
                     out.extra["discard_reason"] = f"{type(e).__name__}: {e}"[:200]
                     return
                 res = an.compute()
+                for nm in sc.get("pre_access", []):
+                    try:
+                        res.to_dataframe() if nm == "to_dataframe" else getattr(res, nm)
+                    except Exception:
+                        pass
                 sing = []
+                edge = []
                 nf = len(res.f)
-                for (k,) in sc["singles"]:
-                    j = k % nf
+                for sg in sc["singles"]:
+                    if sg[0] == "edge":
+                        if sg[2] <= data.shape[1]:
+                            edge.append((sg[1] * cfg["fs"], sg[2], an.compute_single_bin(sg[1] * cfg["fs"], L=sg[2])))
+                        continue
+                    j = sg[0] % nf
                     sing.append((j, an.compute_single_bin(float(res.f[j]), L=int(res.L[j]))))
             W.absorb(out, ctx)
         except Exception as e:
@@ -168,6 +183,7 @@ def _execute_stage(sc, out, buf, stage):
             out.violate("exception", f"backend={cfg['backend']}", f"world={world}: {type(e).__name__}: {str(e)[:200]}")
             continue
         per_world[world] = (res, sing)
+        edge_world[world] = edge
         out.count("world_" + world)
         if plan_ref is None:
             plan_ref = res
@@ -184,7 +200,8 @@ def _execute_stage(sc, out, buf, stage):
     S_est = wsum * 2.0 * xmax
     guard_bins = np.zeros(nf, dtype=bool)
     if law == "delay":
-        for j in range(nf):
+        stride = max(1, nf // 60)          # large plans: the reference estimator vouches for a subsample of the bins
+        for j in range(0, nf, stride):
             ph = (omega[j] * d) % np.pi
             if not (0.5 <= ph <= np.pi - 0.5):
                 continue
@@ -237,6 +254,23 @@ def _execute_stage(sc, out, buf, stage):
                 if not (abs(np.angle(dev)) < 0.5 and abs(abs(h) - 1.0) < 0.5):
                     out.violate("delay_law", f"backend={backend} via={via}",
                                 f"stage {stage} world={world} bin {j} (f={f[j]:.6g}, L={L}, d={d}): arg Hxy={np.angle(h):.4f} rad, expected {-(omega[j] * d):.4f} (mod 2pi); |Hxy|={abs(h):.4f}")
+    # DC / Nyquist single-bin requests: y = g*x holds there too (X real)
+    if law == "gain":
+        for world, edges in edge_world.items():
+            backend = {"sim-numba": "numba", "real-numba": "numba", "numpy": "numpy", "sim-cuda": "cuda"}[world]
+            for fE, LE, rs in edges:
+                xx = float(np.asarray(rs.XX)[0])
+                h = complex(np.asarray(rs.Hxy)[0])
+                wE = SC.reference_window(cfg0["win"], cfg0["psll"], int(LE))
+                S = float(np.sum(np.abs(wE))) * 2.0 * xmax
+                if not xx > 0.0:
+                    continue
+                rel = 16 * RM.EPS * max(int(LE), 8) ** 2 * S / np.sqrt(xx)
+                if not rel <= 0.25:
+                    continue
+                out.count("gain_law_at_dc_or_nyquist")
+                if not abs(h - g) <= abs(g) * (1e-9 + rel):
+                    out.violate("gain_law", f"backend={backend} via=single_edge", f"stage {stage} world={world} single bin at f={fE!r} (L={LE}): Hxy={h!r}, expected g={g!r}")
     # identical across backends (within the rounding budget relative to XX)
     ws_ = list(per_world.items())
     for (wa, (ra, _)), (wb, (rb, _)) in zip(ws_, ws_[1:]):
